@@ -76,6 +76,14 @@ def stop_at(sc, req, i):
         except BaseException as exc:          # Hang included
             res = 'raised %s' % type(exc).__name__
         idle_ok = prov.stop() if run.state() == 1 else None
+        if res == 'stopped':
+            try:
+                prov.kill()             # the public stop request (the loop has already ended: returns at once)
+            except BaseException as exc:      # noqa
+                res = 'kill() raised %s' % type(exc).__name__
+        # a stopped provider has released its connection, wherever the protocol stood
+        if res == 'stopped' and (prov.dul_socket is not None or any(not s_.closed for s_ in run._all_socks())):
+            res = 'stopped with the transport connection left open'
     finally:
         run.close()
     return p, (res, idle_ok)
